@@ -5,7 +5,8 @@
    their re-combination in duplicate_checker.main, check_results' un-merge), with
    sympy_simplify / np.random.shuffle / simplify_inv_subs / check_results' verdicts as oracles. *)
 From Coq Require Import List Bool Arith NArith ZArith Lia Permutation Sorted.
-From ESRV Require Import Common.Py Gen.GenUniq Model.Uniq Model.DoSympy Proofs.UniqProofs Proofs.UniqGenProofs Proofs.DoSympyProofs.
+From ESRV Require Import Common.Py Gen.GenUniq Model.Uniq Model.DoSympy Proofs.UniqProofs Proofs.UniqGenProofs Proofs.DoSympyProofs
+  Gen.GenCancel Proofs.CancelGenericProofs Proofs.CancelC03Proofs.
 Import ListNotations.
 Open Scope nat_scope.
 
@@ -134,6 +135,17 @@ Theorem C03_compose_app : forall (Env : Type) (sden : N -> Env -> Env) c1 c2 the
 Proof. exact compose_app. Qed.
 Print Assumptions C03_compose_app.
 
+(* ---------------------------------------------------------------- the cancellation step, from the code *)
+(* simplify_inv_subs as REGENERATED from simplifier.py on every run (Gen/GenCancel.v), on chains of abstract substitution ids:
+   it satisfies the contract cancel_ok that C03_chain_sound assumes, whenever the members of all_dup denote involutions of the
+   parameter vector and the nan marker is not one of them (which is what C17 proves of get_all_dup) *)
+Theorem C03_cancel_contract_of_code : forall (Env : Type) (sden : N -> Env -> Env) (dup : list N),
+  (forall s, In s dup -> forall theta, sden s (sden s theta) = theta) ->
+  ~ In nan_sub dup ->
+  cancel_ok Env sden (code_cancel N.eqb dup).
+Proof. exact code_cancel_ok. Qed.
+Print Assumptions C03_cancel_contract_of_code.
+
 (* ---------------------------------------------------------------- rounds, files, main *)
 (* chain_sound: if every executed sympy_simplify call honours its contract, then for every function i
    the string handed to do_sympy, composed with its final row, is its unique -- any number of rounds,
@@ -149,6 +161,20 @@ Theorem C03_chain_sound : forall (V Env : Type) (den : N -> Env -> V) (sden : N 
                   nth_error (l_subs (o_lib o)) i = Some c /\ step_sound V Env den sden npar f0 u c.
 Proof. exact chain_sound. Qed.
 Print Assumptions C03_chain_sound.
+
+(* the same with the cancellation step instantiated by the generated code: no contract hypothesis on simplify_inv_subs *)
+Theorem C03_chain_sound_code_cancel : forall (V Env : Type) (den : N -> Env -> V) (sden : N -> Env -> Env) (npar : N -> nat)
+    cp mp E xo os perm (dup : list N) check T o,
+  (forall s, In s dup -> forall theta, sden s (sden s theta) = theta) ->
+  ~ In nan_sub dup ->
+  main cp mp E xo os perm (code_cancel N.eqb dup) check T = Some o ->
+  Permutation perm (seq 0 (length (uniq_keys N.eqb (o_fun o)))) ->
+  run_sound V Env den sden npar cp mp (inherit E xo) os ->
+  forall i f0, nth_error (o_a0 o) i = Some f0 ->
+    exists q u c, nth_error (l_match (o_lib o)) i = Some q /\ nth_error (l_uniq (o_lib o)) q = Some u /\
+                  nth_error (l_subs (o_lib o)) i = Some c /\ step_sound V Env den sden npar f0 u c.
+Proof. exact chain_sound_code_cancel. Qed.
+Print Assumptions C03_chain_sound_code_cancel.
 
 Theorem C03_uniques_distinct : forall cp mp E xo os perm cancel check T o,
   main cp mp E xo os perm cancel check T = Some o ->
